@@ -77,6 +77,9 @@ benign("writer-pool-constructor", "thermal-writer buffer pool built by a helper 
        (TW, "\tspentFrames := make(chan []byte, inFlight)\n\tfor i := 0; i < inFlight; i++ {\n\t\tspentFrames <- make([]byte, header.FrameSize())\n\t}\n", "\tspentFrames := newFramePool(inFlight, header.FrameSize())\n", False),
        (TW, "func writer(", "func newFramePool(n, frameSize int) chan []byte {\n\tpool := make(chan []byte, n)\n\tfor i := 0; i < n; i++ {\n\t\tpool <- make([]byte, frameSize)\n\t}\n\treturn pool\n}\n\nfunc writer(", False))
 
+benign("limiter-core-helper", "log limiter body moved into a helper that Print and Printf call with the final text (correct refactor)",
+       (LL, "func (limiter *LogLimiter) Print(s string) {\n\tnow := limiter.nowFunc()", "func (limiter *LogLimiter) Print(s string) {\n\tlimiter.emit(s)\n}\n\nfunc (limiter *LogLimiter) emit(s string) {\n\tnow := limiter.nowFunc()", False))
+
 here = os.path.dirname(os.path.abspath(__file__))
 for f in os.listdir(os.path.join(here, "benign")):
     os.unlink(os.path.join(here, "benign", f))
